@@ -396,3 +396,41 @@ M("C17", "jw-sign-or", SYMMPO, "n_permutes = op2_new_sigma_z * (op1_n_sigma_plus
 T("C17", "twin-jw-parity", SYMMPO, "n_permutes = op2_new_sigma_z * (op1_n_sigma_plus + op1_n_sigma_minus)", "n_permutes = op2_new_sigma_z * ((op1_n_sigma_plus + op1_n_sigma_minus) % 2)", "same parity")
 M("C01", "qr-shortcut-min", SYMMPO, "    if gamma.shape[1] != 1:", "    if min(gamma.shape) != 1:", ["qr-shortcut-shape"], "single-row matrices take the single-column shortcut")
 T("C01", "twin-qr-guard", SYMMPO, "    if gamma.shape[1] != 1:", "    if gamma.shape[1] > 1:", "same guard")
+
+# ------------------------------------------------------------------------------------------------ regression mutants: every repaired defect, reverted
+import json as _json
+import os as _os
+
+_V = _os.path.dirname(_os.path.dirname(_os.path.abspath(__file__)))
+_FIX_EXPECT = {1: ("C03", ["qn-align"]), 2: ("C03", ["qn-charge"]), 3: ("C10", ["evolve"]), 4: ("C13", ["effect-bound", "TTNS.evolve"]), 5: ("C13", ["compressed_sum"]),
+               6: ("C15", ["array-truth"]), 7: ("C16", ["sho-product"]), 8: ("C16", ["copy-forward"]), 9: ("C14", ["crash-points"]), 10: ("C09", ["krylov-hermitian"]),
+               11: ("C08", ["heff-network"]), 12: ("C09", ["adaptive-reject"]), 13: ("C17", ["jw-vocabulary"]), 14: ("C10", ["imag-reentry"])}
+for _f in sorted(_os.listdir(_os.path.join(_V, "renostat", "selftest_patches"))):
+    if _f.startswith("fix-"):
+        _n = int(_f.split("-")[1])
+        _pid, _exp = _FIX_EXPECT[_n]
+        SPECS.append({"property": _pid, "kind": "mutant", "id": "revert-" + _f[:-5], "edits": [{"patch": "renostat/selftest_patches/" + _f, "reverse": True}], "expect": _exp,
+                      "what": "the repaired defect comes back (fix commit reverted)"})
+# the same two defects are also violations of C06 / C13
+SPECS.append({"property": "C06", "kind": "mutant", "id": "revert-fix-01-C06", "edits": [{"patch": "renostat/selftest_patches/" + [f for f in sorted(_os.listdir(_os.path.join(_V, "renostat", "selftest_patches"))) if f.startswith("fix-01")][0], "reverse": True}],
+              "expect": ["qn-align"], "what": "fix 1 reverted, seen from C06"})
+SPECS.append({"property": "C13", "kind": "mutant", "id": "revert-fix-03-C13", "edits": [{"patch": "renostat/selftest_patches/" + [f for f in sorted(_os.listdir(_os.path.join(_V, "renostat", "selftest_patches"))) if f.startswith("fix-03")][0], "reverse": True}],
+              "expect": ["evolve_exact"], "what": "fix 3 reverted, seen from C13"})
+
+# ------------------------------------------------------------------------------------------------ every kept seeded change is a mutant of its own property's check
+_SEED_RULE = {
+    "C01-qr-drops-imaginary-factors": "factor-dtype", "C01-qr-shortcut-single-row": "qr-shortcut-shape", "C02-ttno-updown-labels-swapped": "label-schema",
+    "C03-metacopy-shares-qntot": "label-freshness", "C04-check-right-canonical-skips-last": "check-mirror", "C05-compress-double-bond-offset": "bond-index",
+    "C06-add-align-after-concat": "qn-align", "C07-freq-environ-off-by-one": "freq-env-bound", "C07-2site-rdm-conj-moved": "rdm-network", "C08-direct-2site-transposed": "heff-network",
+    "C09-rk-stage-time-parenthesis": "rk-usage", "C09-adaptive-error-drops-prefactor": "relative-error-homogeneous", "C10-term10-loses-displacement-sign": "holstein-square",
+    "C11-ttno-apply-label-order": "state-network", "C12-update2site-parent-index": "decomposition-axes", "C13-load-coeff-ndarray": "scalar-prefactor",
+    "C13-variational-compress-mutates-mpo": "effect-bound", "C14-bak-removed-before-write": "crash-points", "C15-simplify-filters-before-merge": "filter-after-merge",
+    "C16-holstein-linear-coupling-omega": "holstein-square", "C16-multielectron-branches-merged": "multi-electron", "C17-stacked-drops-2e-orbitals": "qc-term-coverage",
+    "C17-jw-sign-parity-or": "jw-sign-parity", "C19-cash-karp-nodes-swapped": "row-sum",
+}
+_sd = _os.path.join(_V, "seeded")
+for _name in sorted(_os.listdir(_sd)):
+    if _os.path.isfile(_os.path.join(_sd, _name, "patch.diff")):
+        _meta = _json.load(open(_os.path.join(_sd, _name, "meta.json")))
+        SPECS.append({"property": _meta["property"], "kind": "mutant", "id": "seed-" + _name, "edits": [{"patch": "seeded/" + _name + "/patch.diff"}],
+                      "expect": [_SEED_RULE[_name]] if _name in _SEED_RULE else [], "what": "seeded change: " + _meta.get("summary", "")[:80]})
